@@ -310,9 +310,23 @@ pub fn oracle(prop: Prop, case: &Case, st: &mut Stats) -> Verdict {
     if prop != Prop::C01 {
         cfg.rrl = None;
     }
+    let pool = query_names(&model, &[], 400);
+    // One key in three is renamed to a name that occurs in the catalog (selector = octets of
+    // its secret), so that the TSIG owner can share labels with names inside the response.
+    if !pool.is_empty() {
+        for k in cfg.keys.iter_mut() {
+            if k.secret.len() % 3 == 0 {
+                let cand = pool[(k.secret[0] as usize * 7 + k.secret.len()) % pool.len()].0.folded();
+                if cand.is_valid() && !cand.labels.is_empty() {
+                    k.name = cand;
+                }
+            }
+        }
+        let mut seen = std::collections::BTreeSet::new();
+        cfg.keys.retain(|k| seen.insert(k.name.folded()));
+    }
     let server = make_server(&cat, &cfg);
     let payload = server.payload();
-    let pool = query_names(&model, &[], 400);
     let keys = keys_for_scan(&cfg);
     let mut buf = Vec::new();
     for r in &case.requests {
@@ -489,7 +503,7 @@ pub fn run(ctx: &Ctx, report: &mut Report) {
                 exactly the documented minimum size; oracle = no panic. Non-trivial = request >= 12 octets with QR clear that reaches \
                 past the question (has counted records or is mutated); distinct by request octets."
                 .into();
-            ("survive", ctx.tier.pick(16_000, 400_000))
+            ("survive", ctx.tier.pick(64_000, 800_000))
         }
         Prop::C02 => {
             report.rule = "as C01 but catalogs restricted to RDATA valid for its type and RRL off; every response is decoded by the strict \
@@ -497,7 +511,7 @@ pub fn run(ctx: &Ctx, report: &mut Report) {
                 TSIG only as the very last record, at most one question. Non-trivial = response with a record other than OPT/TSIG, or a \
                 response to an irregular request."
                 .into();
-            ("wellformed", ctx.tier.pick(12_000, 300_000))
+            ("wellformed", ctx.tier.pick(48_000, 600_000))
         }
         Prop::C03 => {
             report.rule = "structured and mutated requests plus raw byte strings, and a sweep over header octets 2-3 (all 65536 values in the \
@@ -507,7 +521,7 @@ pub fn run(ctx: &Ctx, report: &mut Report) {
                 QDCOUNT, question parseable)."
                 .into();
             flag_sweep(ctx, report);
-            ("echo", ctx.tier.pick(10_000, 250_000))
+            ("echo", ctx.tier.pick(40_000, 500_000))
         }
         Prop::C08 => {
             report.rule = "well-formed requests (with/without OPT and TSIG, extra records in every section) of which 60% are mutated \
@@ -516,7 +530,7 @@ pub fn run(ctx: &Ctx, report: &mut Report) {
                 answer/authority data; scanner finds no format problem => not FORMERR. Non-trivial = request for which the scanner \
                 predicts FORMERR (by reason, see classes)."
                 .into();
-            ("formerr", ctx.tier.pick(12_000, 300_000))
+            ("formerr", ctx.tier.pick(48_000, 600_000))
         }
         Prop::C09 => {
             report.rule = "requests with 0-2 OPT records in any section and position, random OPT TTL (extended RCODE, version, flags incl. \
@@ -525,7 +539,7 @@ pub fn run(ctx: &Ctx, report: &mut Report) {
                 reaches an OPT; BADVERS for version != 0; FORMERR for a non-root owner. Non-trivial = request whose OPT TTL is not 0 \
                 or with a misplaced/duplicated OPT."
                 .into();
-            ("edns", ctx.tier.pick(12_000, 300_000))
+            ("edns", ctx.tier.pick(48_000, 600_000))
         }
     };
     run_prop(ctx, report, PropSpec { name, cases, max_shrink_iters: 3000 }, move || case_strategy(prop), move |c: &Case, st: &mut Stats| oracle(prop, c, st));
